@@ -194,6 +194,12 @@ def eps_scalar_spatial(r, *, amp=0.5, k=(1.0, 0.0), base=0.5):
     return float(base - amp * math.cos(k[0] * r[0] + k[1] * r[1]) ** 2)
 
 
+def eps_int_step(r, *, side=1, lo=1, hi=0.5):
+    """A per-site callable (not vectorised) that returns a python int on one half of the device and a
+    float on the other, the way a user writes 'return 1' / 'return 0.5' in a defect region."""
+    return hi if side * r[0] > 0 else lo
+
+
 def eps_timedep(r, *, t, amp=0.3, omega=1.0, base=0.6, vectorized=True):
     r = np.atleast_2d(r)
     return (base - amp * math.sin(omega * t) ** 2) * np.ones(len(r))
@@ -267,6 +273,8 @@ def build_epsilon(spec):
         return _bind_kwonly(eps_scalar_spatial, amp=spec["amp"], k=tuple(spec["k"]), base=spec["base"])
     if spec["kind"] == "timedep":
         return _bind_kwonly(eps_timedep, amp=spec["amp"], omega=spec["omega"], base=spec["base"])
+    if spec["kind"] == "int_step":
+        return _bind_kwonly(eps_int_step, side=spec["side"], lo=int(spec["lo"]), hi=float(spec["hi"]))
     raise ValueError(spec["kind"])
 
 
@@ -313,6 +321,9 @@ def eval_epsilon(spec, sites_phys, t):
         return eps_spatial(sites_phys, amp=spec["amp"], k=tuple(spec["k"]), base=spec["base"])
     if spec["kind"] == "timedep":
         return eps_timedep(sites_phys, t=t, amp=spec["amp"], omega=spec["omega"], base=spec["base"])
+    if spec["kind"] == "int_step":
+        x = np.asarray(sites_phys)[:, 0]
+        return np.where(spec["side"] * x > 0, float(spec["hi"]), float(spec["lo"]))
     raise ValueError(spec["kind"])
 
 
